@@ -99,12 +99,12 @@ Proof.
     destruct (sc_sl_done c); [reflexivity|].
     destruct (sc_readerQ c) as [|fr q]; [destruct (sc_rl_done c); reflexivity|].
     cbn [hd_error] in HT. destruct (is_hdr_frame fr) eqn:IH; [discriminate|].
-    rewrite (hmvs_dec _ _ _ _ (hmvs_sl_frame_other _ dec_field enc_set_max cfg false _ fr IH (no_open_block_false _))).
+    rewrite (hmvs_dec _ _ _ _ _ (hmvs_sl_frame_other _ dec_field enc_set_max cfg (sf_sid fr) false _ fr IH (fun _ => eq_refl) (no_open_block_false _))).
     reflexivity.
   - rewrite step_EvDone. destruct (sc_sl_done c); [reflexivity|].
-    apply (hmvs_dec _ false). apply hmvs_sl_done. intro K; discriminate K.
+    apply (hmvs_dec _ sid false). apply hmvs_sl_done. intro K; discriminate K.
   - rewrite step_EvClock. destruct (_ <? _)%Z; reflexivity.
-  - rewrite step_EvTimer. destruct (sc_sl_done c); [reflexivity|]. apply (hmvs_dec _ false). apply hmvs_sl_timer.
+  - rewrite step_EvTimer. destruct (sc_sl_done c); [reflexivity|]. apply (hmvs_dec _ 0 false). apply hmvs_sl_timer.
   - rewrite step_EvIdle. sc_rw. reflexivity.
   - rewrite step_EvCloser. destruct (_ && _)%bool; reflexivity.
   - reflexivity.
@@ -297,7 +297,7 @@ Qed.
 Lemma HG_rsame c c' cur n carry : rsame c c' -> HG c cur n carry -> HG c' cur n carry.
 Proof. unfold rsame. intro R. decompose [and] R. apply HG_ext; assumption. Qed.
 
-Lemma HG_hmvs c c' cur n carry : hmvs true c c' -> sc_sl_done c' = false -> HG c cur n carry -> HG c' cur n carry.
+Lemma HG_hmvs own c c' cur n carry : hmvs own true c c' -> sc_sl_done c' = false -> HG c cur n carry -> HG c' cur n carry.
 Proof.
   intros M Hd [H C]. split; [eapply hmvs_HInv; eassumption|]. intro NZ. eapply hmvs_carry; eauto.
 Qed.
@@ -360,22 +360,22 @@ Proof.
         assert (NOB : no_open_block true c0).
         { intros _. destruct G0 as [[ND FP IDS _ _ _] _]. split; [exact ND|].
           replace cur with 0 in FP by congruence. apply all_hf_of_P0; [intros s Is; apply IDS; exact Is | exact FP]. }
-        pose proof (hmvs_sl_frame_other _ dec_field enc_set_max cfg true c0 fr IHF NOB) as M.
+        pose proof (hmvs_sl_frame_other _ dec_field enc_set_max cfg (sf_sid fr) true c0 fr IHF (fun _ => eq_refl) NOB) as M.
         split; [eapply HG_hmvs; eassumption|].
-        pose proof (hmvs_base _ _ _ _ M) as (_ & _ & B3 & B4 & B5 & _).
+        pose proof (hmvs_base _ _ _ _ _ M) as (_ & _ & B3 & B4 & B5 & _).
         exists fin. rewrite B3, B4, B5. unfold c0. sc_cbn. replace cur with 0 by congruence. split; [exact Wk | exact F].
       * rewrite step_EvDone in *. rewrite Hd in *.
-        assert (M : hmvs true c (fst (sl_done enc_field cfg c sid r))).
+        assert (M : hmvs sid true c (fst (sl_done enc_field cfg c sid r))).
         { apply hmvs_sl_done. intros _ s SS Run. destruct G as [[_ FP _ _ _ _] _]. rewrite Forall_forall in FP.
           destruct (FP s) as (_ & _ & P3 & _); [apply strms_search_In in SS; tauto | auto]. }
         split; [eapply HG_hmvs; eassumption|].
-        pose proof (hmvs_base _ _ _ _ M) as (_ & _ & B3 & B4 & B5 & _). eapply QI_ext; [exact B4 | exact B3 | exact B5 | exact Q].
+        pose proof (hmvs_base _ _ _ _ _ M) as (_ & _ & B3 & B4 & B5 & _). eapply QI_ext; [exact B4 | exact B3 | exact B5 | exact Q].
       * rewrite step_EvClock in *. destruct (_ <? _)%Z; [|split; assumption].
         split; [eapply HG_ext; [..|exact G]; reflexivity | eapply QI_ext; [..|exact Q]; reflexivity].
       * rewrite step_EvTimer in *. rewrite Hd in *.
-        pose proof (hmvs_sl_timer _ cfg true c) as M.
+        pose proof (hmvs_sl_timer _ cfg 0 true c) as M.
         split; [eapply HG_hmvs; eassumption|].
-        pose proof (hmvs_base _ _ _ _ M) as (_ & _ & B3 & B4 & B5 & _). eapply QI_ext; [exact B4 | exact B3 | exact B5 | exact Q].
+        pose proof (hmvs_base _ _ _ _ _ M) as (_ & _ & B3 & B4 & B5 & _). eapply QI_ext; [exact B4 | exact B3 | exact B5 | exact Q].
       * rewrite step_EvIdle in *.
         split; [eapply HG_ext; [..|exact G]; sc_rw; reflexivity | eapply QI_ext; [..|exact Q]; sc_rw; reflexivity].
       * rewrite step_EvCloser in *. destruct (_ && _)%bool; [discriminate Hd' | split; assumption].
@@ -516,3 +516,87 @@ Proof.
 Qed.
 
 End Exec.
+
+(* ---------- the per-step theorem at the states of clean runs ---------- *)
+Section RunStep.
+Variable hstate : Type.
+Variable dec_field : hstate -> N -> bytes -> dec_res hstate.
+Variable enc_field : hstate -> bytes -> bytes -> bool -> bytes * hstate.
+Variable enc_set_max : hstate -> N -> hstate.
+Variable cfg : config.
+Variable h0 : hstate.
+Notation step := (step dec_field enc_field enc_set_max cfg).
+Notation run := (run dec_field enc_field enc_set_max cfg h0).
+
+(* C09 (a), per step, for every state reached without a connection error of the stream loop on a header
+   block: the fragment the stream loop takes next is decoded as the reference says, from the ghost of the
+   run so far (n fields, carry), whatever happens to its stream - unless this very step raises a connection error. *)
+Theorem hdr_step_reference evs fr q :
+  clean dec_field enc_field enc_set_max cfg h0 evs ->
+  sc_sl_done (run evs) = false -> sc_readerQ (run evs) = fr :: q -> is_hdr_frame fr = true ->
+  sc_wl_dead (run evs) = false ->
+  (gcount (sc_out (step (run evs) EvSL)) <= gcount (sc_out (run evs)))%nat ->
+  exists n carry,
+    ref_frames dec_field (h0, 0, []) (hframes dec_field enc_field enc_set_max cfg h0 evs) (sc_dec (run evs), n, carry) /\
+    hdr_post dec_field cfg (upd_readerQ (run evs) q) (if is_cont fr then n else 0)
+             ((if is_cont fr then carry else []) ++ sf_payload fr) fr (step (run evs) EvSL).
+Proof.
+  intros CL Hd RQ IHF W GC. destruct (run_inv _ dec_field enc_field enc_set_max cfg h0 evs CL) as (n & carry & RF & IHd).
+  destruct (IHd Hd) as [G Q]. exists n, carry. split; [exact RF|].
+  set (c := run evs) in *. set (cur := cur_of (hframes dec_field enc_field enc_set_max cfg h0 evs)) in *.
+  rewrite step_EvSL in *. rewrite Hd, RQ in *.
+  set (c0 := upd_readerQ c q) in *.
+  assert (G0 : HG c0 cur n carry) by (eapply HG_ext; [..|exact G]; reflexivity).
+  destruct Q as (fin & Wk & F). rewrite RQ in Wk. cbn [qwalk] in Wk. rewrite IHF in Wk.
+  assert (KC : is_cont fr = true -> cur = sf_sid fr).
+  { intro IC. rewrite IC in Wk. destruct (cur =? sf_sid fr) eqn:E; [lia | discriminate]. }
+  assert (KH : is_cont fr = false -> cur = 0).
+  { intro IC. rewrite IC in Wk. destruct (cur =? 0) eqn:E; [lia | discriminate]. }
+  exact (sl_frame_hdr _ dec_field enc_field enc_set_max cfg c0 fr cur n carry IHF Hd W G0 KC KH GC).
+Qed.
+
+(* the same, spelled out: n, carry = where the run so far left the open block; fs, n', carry' = what the
+   reference makes of this fragment; afterwards the decoder is the reference's and, when the block goes on, the
+   carry is where the next CONTINUATION will look for it (the stream's previousHeaderBytes, or the discard
+   registers when the stream is gone) *)
+Theorem hdr_step_reference_explicit evs fr q :
+  clean dec_field enc_field enc_set_max cfg h0 evs ->
+  sc_sl_done (run evs) = false -> sc_readerQ (run evs) = fr :: q -> is_hdr_frame fr = true ->
+  sc_wl_dead (run evs) = false ->
+  (gcount (sc_out (step (run evs) EvSL)) <= gcount (sc_out (run evs)))%nat ->
+  exists n carry fs n' carry',
+    ref_frames dec_field (h0, 0, []) (hframes dec_field enc_field enc_set_max cfg h0 evs) (sc_dec (run evs), n, carry) /\
+    ref_run dec_field (eh_of fr) (sc_dec (run evs)) (if is_cont fr then n else 0)
+            ((if is_cont fr then carry else []) ++ sf_payload fr) fs (sc_dec (step (run evs) EvSL)) n' carry' /\
+    (eh_of fr = true -> carry' = []) /\
+    (eh_of fr = false -> sc_sl_done (step (run evs) EvSL) = false ->
+     carry_at (step (run evs) EvSL) (sf_sid fr) = Some (n', carry')).
+Proof.
+  intros CL Hd RQ IHF W GC.
+  destruct (hdr_step_reference evs fr q CL Hd RQ IHF W GC) as (n & carry & RF & (fs & n' & carry' & R & _ & GP)).
+  exists n, carry, fs, n', carry'. split; [exact RF|]. split; [exact R|]. split.
+  - intro EH. rewrite EH in R. eapply ref_run_eh_carry. exact R.
+  - intros EH Hd'. destruct (GP Hd') as ([_ CA] & _ & _ & _). unfold next_cur in CA. rewrite EH in CA. apply CA.
+    unfold is_hdr_frame in IHF. apply andb_prop in IHF. destruct IHF as [Z _]. apply negb_true_iff in Z. lia.
+Qed.
+
+End RunStep.
+
+(* ---------- the reference over fragments, with the fields it decodes ---------- *)
+Section RefFs.
+Variable hstate : Type.
+Variable dec_field : hstate -> N -> bytes -> dec_res hstate.
+
+Inductive ref_frames_fs (st0 : hst hstate) : list sframe -> list (bytes * bytes) -> hst hstate -> Prop :=
+| rff_nil : ref_frames_fs st0 [] [] st0
+| rff_snoc frs fr fs0 fs st st' :
+    ref_frames_fs st0 frs fs0 st ->
+    ref_run dec_field (eh_of fr) (fst (fst st)) (if is_cont fr then snd (fst st) else 0)
+            ((if is_cont fr then snd st else []) ++ sf_payload fr) fs (fst (fst st')) (snd (fst st')) (snd st') ->
+    ref_frames_fs st0 (frs ++ [fr]) (fs0 ++ fs) st'.
+
+Lemma ref_frames_fs_forget st0 frs fs st : ref_frames_fs st0 frs fs st -> ref_frames dec_field st0 frs st.
+Proof. induction 1; [constructor|]. eapply rf_snoc; [eassumption|]. eexists. eassumption. Qed.
+
+End RefFs.
+Arguments ref_frames_fs {hstate}.
